@@ -66,6 +66,15 @@ func TestHistories(t *testing.T) {
 				continue
 			}
 			k := rapid.IntRange(0, 19).Draw(rt, "op")
+			if k == 18 && rapid.IntRange(0, 2).Draw(rt, "emptyRelease") == 0 {
+				id := "nosuch0"
+				if ids := w.TableIDs(); len(ids) > 0 && rapid.Bool().Draw(rt, "liveTable") {
+					id = ids[rapid.IntRange(0, len(ids)-1).Draw(rt, "relTable")]
+				}
+				ops = append(ops, MOp{K: "release-nothing", Table: id})
+				w.ReleaseNothing(id)
+				continue
+			}
 			if k == 19 && len(w.Elim) > 0 {
 				cnt := rapid.IntRange(1, 3).Draw(rt, "reEntries")
 				ops = append(ops, MOp{K: "re-enter", N: cnt})
@@ -192,6 +201,8 @@ func replayCase(c *Case, prop string) *vlib.Violation {
 				w.Settle(orderFn(op.Rot))
 			case "re-enter":
 				w.ReEnter(op.N)
+			case "release-nothing":
+				w.ReleaseNothing(op.Table)
 			case "sibling-add":
 				if sib == nil {
 					sib = NewWorld("", c.Max, c.Min, vlib.NewStats("sibling"))
